@@ -104,6 +104,7 @@ def one_opcode_recipe(op, kind, x, constval=3):
 EXTRA = [
     # (name, recipe body, sizes, targets or None)
     ('x_2d_addw', '2d\nvar dest 2 d1\nvar src 2 s1\nvar src 2 s2\ninsn addw 0 d1 s1 s2\n', [2], None),
+    ('x_2d_addf', '2d\nvar dest 4 d1\nvar src 4 s1\nvar src 4 s2\ninsn addf 0 d1 s1 s2\n', [4], None),
     ('x_2d_copyb', '2d\nvar dest 1 d1\nvar src 1 s1\ninsn copyb 0 d1 s1\n', [1], None),
     ('x_2d_constm_addl', '2d\nconstm 3\nvar dest 4 d1\nvar src 4 s1\nvar src 4 s2\ninsn addl 0 d1 s1 s2\n', [4], None),
     ('x_constn_addb', 'constn 7\nvar dest 1 d1\nvar src 1 s1\nvar src 1 s2\ninsn addb 0 d1 s1 s2\n', [1], None),
